@@ -4,5 +4,5 @@
 # same-property changes run one after the other (they share evidence/replay files), properties run in parallel.
 P=${1:-4}
 cd /verif
-ls seeded | sed 's/-.*//' | sort -u > /tmp/rerun_props.txt
+ls seeded | grep '^C[0-9][0-9]-' | sed 's/-.*//' | sort -u > /tmp/rerun_props.txt
 cat /tmp/rerun_props.txt | xargs -P $P -I{} sh -c 'c={}; for d in /verif/seeded/$c-*; do id=$(basename $d); echo "$id $(/verif/tools_try_mutant.sh $d/patch.diff quick $c | cut -c1-200)"; done'
